@@ -203,7 +203,7 @@ fn run(ctx: &mut Ctx) {
             // (b) the result must equal the public per-type decoder run over the same decrypted
             // payload through the contract readers (which do log and check every request)
             let attr = PER_TYPE[ctx.rng.below(38) as usize];
-            let blocks = *ctx.rng.pick(&[1usize, 1, 2, 3]);
+            let blocks = if ctx.tier == Tier::Miri { *ctx.rng.pick(&[1usize, 1, 2, 3]) } else { *ctx.rng.pick(&[1usize, 1, 2, 3, 62, 63, 64]) };
             let vlen = 16 * blocks;
             let secret = crate::gen::val::secret(&mut ctx.rng);
             let mut rv = [0u8; 4];
@@ -218,8 +218,12 @@ fn run(ctx: &mut Ctx) {
                 4 => ctx.rng.below(vlen as u64 - 1) as usize,
                 _ => (fmt_min + ctx.rng.below(4) as usize).min(vlen - 2),
             }
-            .min(vlen - 2);
-            let declared = (plen + 6) as u16;
+            .min(vlen - 2)
+            .min(1017); // an AVP cannot be longer than 1023 octets in all
+            // one case in five declares a length that does not fit the value (reveal must refuse it
+            // without its private reader being asked for more than it holds)
+            let hostile = ctx.rng.chance(1, 5);
+            let declared = if hostile { *ctx.rng.pick(&[(vlen + 4) as u16, (vlen + 5) as u16, (vlen + 6) as u16, (vlen + 15) as u16, 1013, 1017, 1022, 1023, 1024, 0xffff]) } else { (plen + 6) as u16 };
             let mut plain = vec![(declared >> 8) as u8, declared as u8];
             let body = if ctx.rng.bool() { wire::valid_payload(&mut ctx.rng, attr, vlen - 2) } else { ctx.rng.bytes(vlen - 2) };
             plain.extend_from_slice(&body);
@@ -229,6 +233,19 @@ fn run(ctx: &mut Ctx) {
             ctx.rep.case(&key, true);
             let got = exec::reveal(exec::hidden_exact(attr, &value), &secret, rv);
             ctx.rep.bucket(&format!("reveal.{}", got.class()));
+            if let Out::Panic(p) = &got {
+                if p.file.contains("slice_reader") {
+                    ctx.violate(
+                        "C02:reveal:private-reader-request-out-of-range",
+                        format!("inside reveal the private SliceReader was asked for more than it holds ({} at {}:{}) - hidden value of {} octets, decrypted length field {}", p.message, p.file, p.line, vlen, declared),
+                        J::obj(vec![("attribute_type", J::U(attr as u64)), ("hidden_value_hex", J::hex(&value[..value.len().min(64)])), ("value_octets", J::U(vlen as u64)), ("decrypted_length_field", J::U(declared as u64)), ("secret_hex", J::hex(&secret)), ("random_vector_hex", J::hex(&rv))]),
+                    );
+                }
+                return;
+            }
+            if hostile {
+                return;
+            }
             let payload = &plain[2..2 + plen];
             for rk in [Rk::ContractSlice, Rk::ContractVec] {
                 let run = exec::decode_type(attr, payload, rk).unwrap();
